@@ -4,10 +4,12 @@ Integers are bit-vectors of their Go width, slices have symbolic length within a
 cell arrays with symbolic length, math/big.Int is a 256-bit unsigned value, everything outside the repo is a stub with a
 stated contract (stubs.py). Paths are explored depth-first; every branch is checked for feasibility with z3; harness
 assertions and implicit obligations (bounds, nil) are decided per path."""
+import os
 import json, os, subprocess, sys, time, copy, itertools
 import z3
 
-BIG = 256           # bits of the math/big.Int model
+BIG = int(os.environ.get('GOSYM_BIG', '256'))           # bits of the math/big.Int model (256 by default; C07 runs at 264 so that values >= 2^256 exist)
+NB = BIG // 8
 BYTECAP = 200       # capacity of []byte values created by append / Bytes()
 
 
@@ -122,12 +124,15 @@ class Opaque:
 
 class Str:
     """string: z3 String term, or a numeric string produced by big.Int.Text / Sprintf("0x%s")"""
-    __slots__ = ('z', 'num')
+    __slots__ = ('z', 'num', 'parts')
 
-    def __init__(self, z=None, num=None):
+    def __init__(self, z=None, num=None, parts=None):
         self.z, self.num = z, num      # num = (prefix, base, bv)
+        self.parts = parts             # concatenation: [('lit', text) | ('num', prefix, base, bv)], z and num unset
 
     def __repr__(self):
+        if self.parts is not None:
+            return 'Str(parts %s)' % ([p[:3] if p[0] == 'num' else p for p in self.parts],)
         return 'Str(%s)' % (self.z if self.num is None else ('num', self.num[0], self.num[1]))
 
 
@@ -671,6 +676,8 @@ class Exec:
                 r = self.str_eq(x, y)
                 return z3.simplify(r if o == '==' else z3.Not(r))
             if o == '+':
+                if x.num is not None or y.num is not None or x.parts is not None or y.parts is not None:
+                    return Str(parts=self.str_parts(x) + self.str_parts(y))
                 return Str(z3.Concat(self.zstr(x), self.zstr(y)))
             raise Unsupported('string op ' + o)
         if info:
@@ -742,11 +749,62 @@ class Exec:
         raise Unsupported('equality of %r and %r' % (x, y))
 
     def zstr(self, s):
-        if s.num is not None:
+        if s.num is not None or s.parts is not None:
             raise Unsupported('numeric string used as a plain string')
         return s.z
 
+    def str_parts(self, s):
+        if s.parts is not None:
+            return list(s.parts)
+        if s.num is not None:
+            return [('num',) + tuple(s.num)]
+        z = z3.simplify(s.z)
+        if not z3.is_string_value(z):
+            raise Unsupported('concatenation of a numeric string with a symbolic string')
+        return [('lit', z.as_string())] if z.as_string() else []
+
+    def parts_eq(self, xp, yp):
+        """equality of two concatenations of literals and number texts. Exact when the text splits uniquely (every number is followed by a
+        literal that starts with a non-digit, or ends the string) or when it is a plain sequence of hexadecimal texts (compared as digit
+        strings: lengths and nibbles); otherwise unsupported."""
+        def norm(ps):
+            out = []
+            for p in ps:
+                if p[0] == 'lit' and out and out[-1][0] == 'lit':
+                    out[-1] = ('lit', out[-1][1] + p[1])
+                elif p[0] == 'num' and p[1]:
+                    out += [('lit', p[1]), ('num', '', p[2], p[3])]
+                    if len(out) > 2 and out[-3][0] == 'lit':
+                        out[-3:-1] = [('lit', out[-3][1] + out[-2][1])]
+                else:
+                    out.append(p)
+            return out
+        xp, yp = norm(xp), norm(yp)
+        shape = lambda ps: [(p[0], p[1] if p[0] == 'lit' else p[2]) for p in ps]
+        alphabet = '0123456789abcdefABCDEFxX'
+        unique = all(not (p[0] == 'num' and i + 1 < len(ps) and (ps[i + 1][0] == 'num' or ps[i + 1][1][0] in alphabet)) for ps in (xp, yp) for i, p in enumerate(ps))
+        if shape(xp) == shape(yp) and unique:
+            return z3.And(*[a[3] == b[3] for a, b in zip(xp, yp) if a[0] == 'num']) if any(a[0] == 'num' for a in xp) else z3.BoolVal(True)
+        if all(p[0] == 'num' and p[2] == 16 for p in xp + yp) and len(xp) <= 3 and len(yp) <= 3:
+            W = BIG * max(len(xp), len(yp))
+
+            def digits(ps):
+                total, ln = z3.BitVecVal(0, W), z3.BitVecVal(0, W)
+                for p in ps:
+                    v = z3.ZeroExt(W - BIG, p[3])
+                    L = z3.BitVecVal(1, W)
+                    for k in range(2, BIG // 4 + 1):
+                        L = z3.If(z3.LShR(v, 4 * (k - 1)) != 0, z3.BitVecVal(k, W), L)
+                    total = (total << (4 * L)) | v
+                    ln = ln + L
+                return total, ln
+            (tx, lx), (ty, ly) = digits(xp), digits(yp)
+            return z3.And(tx == ty, lx == ly)
+        raise Unsupported('comparison of concatenated number texts of shapes %s and %s' % (shape(xp), shape(yp)))
+
     def str_eq(self, x, y):
+        if x.parts is not None or y.parts is not None:
+            return self.parts_eq(self.str_parts(x), self.str_parts(y))
         if x.num is not None or y.num is not None:
             if x.num is not None and y.num is not None:
                 return z3.And(z3.BoolVal(x.num[0] == y.num[0] and x.num[1] == y.num[1]), x.num[2] == y.num[2])
@@ -920,7 +978,22 @@ class Exec:
             x = Slice(None, 0, 0, 0)
         lo_c = conc(lo) if lo is not None else 0
         if lo_c is None:
-            raise Unsupported('symbolic low slice bound at %s' % ins.get('pos'))
+            # symbolic low bound: one successor per feasible value within the slice's capacity (the instruction is re-executed with
+            # the bound pinned); values beyond the capacity are a bounds panic
+            if ins['low']['k'] != 'local' or x.cap > 256:
+                raise Unsupported('symbolic low slice bound at %s' % ins.get('pos'))
+            top = min(x.cap, x.hi if isinstance(x.hi, int) else x.cap)
+            outs = []
+            for v in range(0, top + 1):
+                c = lo == bvval(v, lo.size())
+                if self.feasible(st, c):
+                    s2 = st.clone()
+                    s2.pc.append(c)
+                    s2.frames[-1].regs[ins['low']['n']] = bvval(v, lo.size())
+                    outs.append(s2)
+            if self.feasible(st, z3.UGT(lo, bvval(top, lo.size()))):
+                self.results.append(Result('panic', st, 'slice bounds out of range possible at %s' % ins.get('pos')))
+            return outs
         if hi is None:
             newlen = x.len - lo_c if isinstance(x.len, int) else z3.simplify(x.len - lo_c)
             if isinstance(x.len, int):
@@ -1039,6 +1112,10 @@ class Exec:
             return self.key_eq(a.v, b.v) if a.t == b.t else z3.BoolVal(False)
         if isinstance(a, (int, bool)) and isinstance(b, (int, bool)):
             return z3.BoolVal(a == b)
+        if isinstance(a, Struct) and isinstance(b, Struct) and len(a.f) == len(b.f):
+            return z3.simplify(z3.And(*[self.key_eq(p, q) for p, q in zip(a.f, b.f)])) if a.f else z3.BoolVal(True)
+        if isinstance(a, Array) and isinstance(b, Array) and len(a.e) == len(b.e):
+            return z3.simplify(z3.And(*[self.key_eq(p, q) for p, q in zip(a.e, b.e)])) if a.e else z3.BoolVal(True)
         raise Unsupported('map key comparison of %r and %r' % (a, b))
 
     def op_Lookup(self, st, fr, ins):
